@@ -1,0 +1,10 @@
+//go:build !verif
+// +build !verif
+
+package websocket
+
+func verifYield(point string, c *conn, index int) {}
+
+func verifYieldErr(point string, c *conn, err error) {}
+
+func verifEvent(kind string, c *conn, index int) {}
